@@ -491,7 +491,7 @@ func (m *Memory) FindLatest(
 			}
 			// Inactive
 			for _, state := range query.Inactive {
-				if am.IsActiveTick(t.MTimeTracked[mach.Index1(state)]) {
+				if am.IsActiveTick(t.MTimeTracked[m.Index1(state)]) {
 					continue records
 				}
 			}
@@ -611,6 +611,7 @@ func (m *Memory) Match(
 
 	// stop GC and query
 	m.gcMx.RLock()
+	defer m.gcMx.RUnlock()
 	var ret []*amhist.MemoryRecord
 	err := m.Db.View(func(txn *badger.Txn) error {
 		now := m.Mach.Time(nil).ToIndex(m.Mach.StateNames())
@@ -618,7 +619,6 @@ func (m *Memory) Match(
 
 		return nil
 	})
-	m.gcMx.RUnlock()
 
 	// err
 	if ctx.Err() != nil || m.Ctx.Err() != nil {
